@@ -444,44 +444,37 @@ int resizeattr(struct tlv *attr, size_t newlen) {
  * @return int 1 if correct (or no eap attributes), 0 if format error
  */
 int verifyeapformat(struct radmsg *msg) {
-    struct list *eap_attrs;
     struct list_node *node;
+    struct tlv *attr, *first = NULL;
     size_t eap_len = 0, attr_len = 0;
-    int ret = 1;
 
-    if (!(eap_attrs = radmsg_getalltype(msg, RAD_Attr_EAP_Message)))
+    if (!msg || !msg->attrs)
         return 1;
 
-    if (!(node = list_first(eap_attrs))) {
-        ret = 1;
-        goto exit;
-    }
-
-    if (((struct tlv *)node->data)->l < 4) {
-        debug(DBG_DBG, "verifyeapformat: first eap attribute too short");
-        ret = 0;
-        goto exit;
-    }
-
-    eap_len = ntohs(*(uint16_t *)(((struct tlv *)node->data)->v + 2));
-    for (; node; node = list_next(node)) {
-        struct tlv *attr = (struct tlv *)node->data;
+    /* walk the attributes in place: nothing to allocate, so nothing that could fail and leave the message unverified */
+    for (node = list_first(msg->attrs); node; node = list_next(node)) {
+        attr = (struct tlv *)node->data;
+        if (attr->t != RAD_Attr_EAP_Message)
+            continue;
+        if (!first) {
+            first = attr;
+            if (attr->l < 4) {
+                debug(DBG_DBG, "verifyeapformat: first eap attribute too short");
+                return 0;
+            }
+            eap_len = ntohs(*(uint16_t *)(attr->v + 2));
+        }
         if (attr->l == 0) {
             debug(DBG_DBG, "verifyeapformat: empty eap attribute");
-            ret = 0;
-            goto exit;
+            return 0;
         }
         attr_len += attr->l;
     }
-    if (eap_len != attr_len) {
+    if (first && eap_len != attr_len) {
         debug(DBG_DBG, "verifyeapformat: eap length (%d) does not match attribute content length (%d)", eap_len, attr_len);
-        ret = 0;
-        goto exit;
+        return 0;
     }
-
-exit:
-    list_free(eap_attrs);
-    return ret;
+    return 1;
 }
 
 const char *attrval2strdict(struct tlv *attr) {
